@@ -49,7 +49,9 @@ def strategy(shard):
         cs = list(draw(st.permutations(list(range(ncv + nph)))))
         cvr_sample = cs[: draw(st.integers(1, len(cs)))]
         return {"vendor": shard["vendor"], "sizes": sizes, "extra": extra, "sample": sample, "n_cvrs": n_cvrs, "refuse": refuse,
-                "ncv": ncv, "nph": nph, "cvr_sample": cvr_sample}
+                "ncv": ncv, "nph": nph, "cvr_sample": cvr_sample,
+                # row labels of the manifest sheet (the batches are its rows, in row order, whatever their labels)
+                "index": draw(st.sampled_from(["range", "range", "gaps", "reversed", "repeated"]))}
 
     return case()
 
@@ -64,7 +66,15 @@ def _manifest(case):
     else:
         rows = [{"Container": f"box{i % 2}", "Tabulator": 10 + i // 2, "Batch Name": 100 + i, "Number of Ballots": s}
                 for i, s in enumerate(sizes)]
-    return pd.DataFrame(rows)
+    df = pd.DataFrame(rows)
+    ix = case.get("index", "range")
+    if ix == "gaps":          # rows were filtered out of a larger sheet: the labels have gaps
+        df.index = [3 * i + 2 for i in range(len(df))]
+    elif ix == "reversed":    # the sheet was sorted: labels are no longer in row order
+        df.index = list(range(len(df)))[::-1]
+    elif ix == "repeated":    # several sheets concatenated without renumbering
+        df.index = [i % 2 for i in range(len(df))]
+    return df
 
 
 def evaluate(case, out):
@@ -78,7 +88,7 @@ def evaluate(case, out):
     sizes = case["sizes"]
     total = sum(sizes)
     bound = total + case["extra"]
-    out.cls(case["vendor"])
+    out.cls(case["vendor"], "row-labels:" + case.get("index", "range"))
     # ---- refusal of inconsistent manifests
     if case["refuse"]:
         out.cls("refused-" + case["refuse"])
